@@ -287,6 +287,16 @@ def gen_timing_args(repo, irregular):
     return m
 
 
+def gen_regular(repo):
+    """T10: the regular-interval timestamp generator"""
+    m = T.Module(f"{repo}/src/nitypes/waveform/_timing/_sample_interval/_regular.py", "Gen.Regular")
+    m.extra_imports = ["NiVerif.Model.Timing"]
+    m.translate_timestamp_generator("RegularSampleIntervalStrategy", "_generate_regular_timestamps", "generate_regular_timestamps",
+                                    {"timing.sample_interval": ("sample_interval", "rel"), "timing.start_time": ("start_time", "abs")},
+                                    ["start_index", "count"])
+    return m
+
+
 MODULES = [
     # (output file, builder, dependencies by output name)
     ("TimeValueTuple", lambda repo, deps: gen_time_value_tuple(repo), []),
@@ -303,6 +313,7 @@ MODULES = [
     ("Port", lambda repo, deps: gen_port(repo), []),
     ("Geometry", lambda repo, deps: gen_geometry(repo), []),
     ("TimingArgs", lambda repo, deps: gen_timing_args(repo, deps["Irregular"]), ["Irregular"]),
+    ("Regular", lambda repo, deps: gen_regular(repo), []),
 ]
 
 
